@@ -85,7 +85,6 @@ impl SourceFileAnalyzer {
             };
             let mut source_line_ranges = SourceLineRanges {
                 line_number_end,
-                length: line.len(),
                 ..Default::default()
             };
             let mut line_tokens: Vec<(TokenType, Range<usize>)> =
@@ -110,7 +109,10 @@ impl SourceFileAnalyzer {
                         is_line_defined = true;
                     }
                 }
-                Err(err) => self.messages.push(DiagnosticMessage::Error(i, err.into())),
+                Err(err) => {
+                    source_line_ranges.tokenization_error_range = Some(err.string_range(line));
+                    self.messages.push(DiagnosticMessage::Error(i, err.into()));
+                }
             }
             if is_line_defined {
                 self.source_file_map
